@@ -367,7 +367,7 @@ def run(ctx, quick):
     vjobs = [("other", "Trace_Ledger.tla", "Trace_Ledger.cfg", t) for t in files]
     vjobs += [("life", "Trace_Lifecycle.tla", None, allt)]
     vjobs += [("other", s, c, allt) for s, c in OTHER_SPECS[1:]]
-    st_files = _selftest_files(ctx, files[0])
+    st_files = _selftest_files(ctx, files)
     vjobs += [("selftest", "Trace_Lifecycle.tla", None, t) for t in st_files]
     with concurrent.futures.ThreadPoolExecutor(max_workers=6) as ex:
         results = list(ex.map(job, list(enumerate(vjobs))))
@@ -450,32 +450,31 @@ def run(ctx, quick):
     }
 
 
-def _selftest_files(ctx, trace):
-    """Binding self-test material: a recorded prefix (whole paths) as it is, with the focus identity's status corrupted in one
-    block, and with the block of an admitted status-changing attempt removed."""
-    rows = []
-    for row in vlib.read_ndjson(trace):
-        if row.get("ev") == "Genesis" and len(rows) > 250:
-            break
-        rows.append(row)
-    bad1 = json.loads(json.dumps(rows))
-    done = False
-    for row in bad1:
-        if row.get("ev") == "Block" and not row.get("refused") and (row.get("lstep") or {}).get("kind") == "attempt" and row.get("txs"):
-            x = row["life"]["cast"]["x"]
-            x["status"] = 3 if x["status"] != 3 else 8
-            done = True
-            break
-    bad2 = json.loads(json.dumps(rows))
-    idx = next((i for i, row in enumerate(bad2[:-1]) if row.get("ev") == "Block" and (row.get("lstep") or {}).get("kind") == "attempt" and row.get("txs")
-                and row["lstep"]["op"] in ("Kill", "ActivateSelf", "InviteX", "KillInviteeX", "KillDelegatorX", "ActivateOther")
-                and bad2[i + 1].get("ev") == "Block" and bad2[i + 1].get("hid") == row.get("hid") and not bad2[i + 1].get("refused")), None)
-    if not done or idx is None:
-        raise vlib.CheckError("self-test could not build corrupted lifecycle traces")
-    del bad2[idx]
-    res = []
-    for name, rws in (("good", rows), ("bad_status", bad1), ("bad_removed", bad2)):
-        f = ctx.path("selftest", "life_%s.ndjson" % name)
-        vlib.write_ndjson(f, rws)
-        res.append(f)
-    return res
+def _selftest_files(ctx, traces):
+    """Binding self-test material: a recorded history (one whole path) as it is, with the focus identity's status corrupted in
+    one block, and with the block of an admitted status-changing attempt removed."""
+    if isinstance(traces, str):
+        traces = [traces]
+    CH = ("Kill", "ActivateSelf", "InviteX", "KillInviteeX", "KillDelegatorX", "ActivateOther")
+    for trace in traces:
+        hist = []
+        for row in vlib.read_ndjson(trace) + [{"ev": "Genesis"}]:
+            if row.get("ev") == "Genesis" and hist:
+                att = [i for i, r in enumerate(hist) if r.get("ev") == "Block" and not r.get("refused") and (r.get("lstep") or {}).get("kind") == "attempt" and r.get("txs")]
+                rem = [i for i in att if hist[i]["lstep"]["op"] in CH and i + 1 < len(hist) and hist[i + 1].get("ev") == "Block" and not hist[i + 1].get("refused")]
+                if att and rem:
+                    bad1 = json.loads(json.dumps(hist))
+                    x = bad1[att[0]]["life"]["cast"]["x"]
+                    x["status"] = 3 if x["status"] != 3 else 8
+                    bad2 = json.loads(json.dumps(hist))
+                    del bad2[rem[0]]
+                    res = []
+                    for name, rws in (("good", hist), ("bad_status", bad1), ("bad_removed", bad2)):
+                        f = ctx.path("selftest", "life_%s.ndjson" % name)
+                        vlib.write_ndjson(f, rws)
+                        res.append(f)
+                    return res
+                hist = []
+            if row.get("ev") in ("Genesis", "Block", "LifeSkip"):
+                hist.append(row)
+    raise vlib.CheckError("self-test could not build corrupted lifecycle traces")
